@@ -20,6 +20,25 @@ Fixpoint nonce_weight (i : Z) (n : bytes) : Z :=
 Definition cache_checksum (c : cache) : Z :=
   fold_left (fun acc kv => acc + nonce_weight 1 (fst kv) * snd kv) c 0.
 
+(** decimal spelling of a non-negative number (only used to build filler requests compactly) *)
+Fixpoint dec_digits (fuel : nat) (n : N) (acc : bytes) : bytes :=
+  match fuel with
+  | O => acc
+  | S f => let acc' := (48 + n mod 10)%N :: acc in
+           if (n <? 10)%N then acc' else dec_digits f (n / 10)%N acc'
+  end.
+Definition dec_bytes (n : N) : bytes := dec_digits 40 n [].
+
+(** a request carrying exactly the three HMAC headers, once each *)
+Definition wreq3 (names : bytes * bytes * bytes) (m p sg ts nn body : bytes) : hreq :=
+  let '(a, b, c) := names in
+  {| q_method := m; q_path := p; q_headers := [(a, [sg]); (b, [ts]); (c, [nn])]; q_body := body |}.
+
+(** filler: POST /hooks, empty body, signature "zz" (not hex: rejected after the nonce is recorded),
+    timestamp [ts] and nonce "f<idx>" in decimal *)
+Definition wfill (names : bytes * bytes * bytes) (ts idx : N) : hreq :=
+  wreq3 names [80;79;83;84]%N [47;104;111;111;107;115]%N [122;122]%N (dec_bytes ts) (102%N :: dec_bytes idx) [].
+
 (** ** white-box histories of one authenticator (C09) *)
 Inductive wev :=
 | WReq (now : Z) (r : hreq) (snap : bool)
